@@ -53,7 +53,15 @@ Front ends (DESIGN.md section 4):
       to_utf8, the depth guard and the depths passed around, the writer's length prefix and integer conversion ->
       Gen/UbjsonBodies.v (Proofs/UbjsonBodiesLayout.v);
   (w) tar-entry front end: the statements of fn tar_append and the closing statement of fn write (src/io/peppi/ser.rs) ->
-      Gen/TarSrc.v (Proofs/TarLayout.v).
+      Gen/TarSrc.v (Proofs/TarLayout.v);
+  (x) .slpp writer-content front end: the content expression of every tar_append of fn write (src/io/peppi/ser.rs) in a normal form
+      (JSON of a struct literal / of a value as is, raw bytes, the prefixed gecko buffer, the Arrow file buffer with its schema, chunk,
+      writer options and calls), the first statement, struct Peppi / Version / Quirks / Game -> Gen/SlppWriteSrc.v (Proofs/SlppWriteLayout.v);
+  (y) .slpp reader-assembly front end: the accumulators of fn read (src/io/peppi/de.rs), the statements of the frames.arrow arm (both
+      branches of the skip_frames test), which accumulators are required / optional in the final Game literal; (z) fn read_arrow_frames:
+      magic bytes, prologue, the action on each stream item and after the loop -> Gen/SlppReadSrc.v (Proofs/SlppReadLayout.v);
+  (aa) .slpp option defaults: struct Opts of ser.rs / de.rs, their Default, the one use of `opts` in fn write / fn read ->
+      Gen/SlppOptsSrc.v (Proofs/SlppOptsLayout.v).
 
 Anything it does not recognise is a loud failure (exit 3, message naming file/item/token): the checks then
 treat every property that depends on the tables as "tie broken" and go searching for a failing input.
@@ -6317,6 +6325,973 @@ def gen_tar_src():
     return '\n'.join(L) + '\n'
 
 
+# ------------------------------------------------------------------------------------------------
+# (x) .slpp writer-content front end: the CONTENT expression of every `tar_append(&mut tar, <content>, "<name>")?` of fn write
+#     (src/io/peppi/ser.rs) in a small normal form, the first statement of fn write, the frames.arrow buffer, and the declaration of
+#     `struct Peppi` (src/io/peppi/mod.rs) with `Version` / `Quirks` -> Gen/SlppWriteSrc.v
+#     (names / guards / order of the entries: front end (d); the gecko prefix byte order: (n); tar_append and the closing statement: (w))
+
+PEPPI_MOD_RS = 'src/io/peppi/mod.rs'
+GAME_IMM_RS = 'src/game/immutable.rs'
+SX_GAME_FIELDS = [('start', 'Start'), ('end', 'Option < End >'), ('frames', 'Frame'), ('metadata', 'Option < Map < String , Value > >'),
+                  ('gecko_codes', 'Option < GeckoCodes >'), ('hash', 'Option < String >'), ('quirks', 'Option < Quirks >')]
+# methods through which an Option (or a record) becomes something else before it is serialised / assembled
+SX_CHANGERS = ('unwrap_or_default', 'unwrap_or', 'unwrap_or_else', 'unwrap', 'expect', 'as_ref', 'as_deref', 'as_mut', 'map', 'map_or', 'map_or_else',
+               'and_then', 'or', 'or_else', 'filter', 'take', 'flatten', 'ok_or', 'ok_or_else', 'is_some', 'is_none', 'then', 'then_some', 'xor', 'zip',
+               'iter', 'into_iter', 'get_or_insert_with', 'get_or_insert', 'insert', 'replace', 'default')
+
+
+def sx_changer(text):
+    for c in re.findall(r'\. (\w+) \(', text) + re.findall(r':: (\w+) \(', text):
+        if c in SX_CHANGERS:
+            return c
+    return None
+
+
+def sx_place(text, guard, where, what):
+    """`[&] game . a . b` -> ('WpGame', [a, b]); `[&] <variable bound by the enclosing if-let> [. a ..]` -> ('WpGuard', [..])"""
+    t = text[2:] if text.startswith('& ') else text
+    m = re.fullmatch(r'(\w+)((?: \. \w+)*)', t)
+    if not m:
+        c = sx_changer(t)
+        if c:
+            raise TranslateError('%s: %s is not a field path taken AS IS: `.%s(..)` can turn the value into something else (a None into a default, ..): %s'
+                                 % (where, what, c, text[:200]))
+        raise TranslateError('%s: %s is not a field path `game.<field>..` (or a path from the variable bound by the enclosing `if let`): %s' % (where, what, text[:200]))
+    path = re.findall(r'\. (\w+)', m.group(2))
+    if m.group(1) == 'game' and path:
+        return ('WpGame', path)
+    if guard is not None and m.group(1) == guard[0]:
+        return ('WpGuard', path)
+    raise TranslateError('%s: %s is rooted at `%s`, which is neither `game` nor the variable bound by the enclosing `if let`: %s' % (where, what, m.group(1), text[:200]))
+
+
+def sx_struct(name, rels):
+    for rel in rels:
+        toks = tokenize(read(rel), rel)
+        i = find_seq(toks, ['struct', name])
+        if i >= 0 and toks[i + 2][1] in ('(', '{'):
+            return rel, dict(parse_struct_decl(toks, name, rel))
+    return None, None
+
+
+def sx_type_of(place, guard, where):
+    """the declared type (token-joined text) of a place, following struct declarations of src/game/{immutable,mod}.rs and src/io/slippi/mod.rs"""
+    kind, path = place
+    if kind == 'WpGame':
+        gd = dict(parse_struct_decl(tokenize(read(GAME_IMM_RS), GAME_IMM_RS), 'Game', GAME_IMM_RS))
+        if path[0] not in gd:
+            raise TranslateError('%s: `game.%s` is not a field of struct Game (%s)' % (where, path[0], GAME_IMM_RS))
+        ty, path = gd[path[0]], path[1:]
+    else:
+        ty = guard[1]
+    for p in path:
+        m = re.fullmatch(r'(?:(\w+) :: )?(\w+)', ty)
+        if not m:
+            raise TranslateError('%s: `.%s` of a value of type %s (a field path cannot go through an Option / a container)' % (where, p, ty))
+        rel, decl = sx_struct(m.group(2), (SLIPPI_MOD_RS,) if m.group(1) == 'slippi' else (GAME_RS, SLIPPI_MOD_RS))
+        if decl is None or p not in decl:
+            raise TranslateError('%s: `.%s` is not a field of %s' % (where, p, ty))
+        ty = decl[p]
+    return ty
+
+
+def sx_coq_place(pl):
+    if pl[0] == 'WpConst':
+        return 'WpConst %s' % coq_str(pl[1])
+    return '%s [%s]' % (pl[0], '; '.join(coq_str(x) for x in pl[1]))
+
+
+def sx_serde_struct(rel, name, allowed_tuple=False):
+    """a `#[derive(.. Serialize ..)] struct` without container-level serde attributes -> [(json key, rust field, omitted when None, type text)]
+    (for a tuple struct: [(index, index, False, type)])"""
+    toks = tokenize(read(rel), rel)
+    i = find_seq(toks, ['struct', name])
+    w = '%s struct %s' % (rel, name)
+    if i < 0 or toks[i + 2][1] not in ('(', '{'):
+        raise TranslateError('%s: not found (or generic)' % w)
+    attrs = attrs_before(toks, i)
+    js_serde_items(attrs, w, ())
+    if 'Serialize' not in js_derives(attrs):
+        raise TranslateError('%s: does not derive Serialize (a hand-written impl is not modelled)' % w)
+    if find_seq(toks, ['Serialize', 'for', name]) >= 0:
+        raise TranslateError('%s: a hand-written `impl Serialize for %s` exists' % (w, name))
+    e = match_close(toks, i + 2)
+    tup = toks[i + 2][1] == '('
+    if tup and not allowed_tuple:
+        raise TranslateError('%s: a tuple struct' % w)
+    out = []
+    seen = set()
+    for idx, f in enumerate(x for x in af_split(toks[i + 3:e], w) if x):
+        fa = []
+        while f and f[0] == ('punct', '#'):
+            c = match_close(f, 1)
+            fa.append(f[2:c])
+            f = f[c + 1:]
+        if f and f[0] == ('id', 'pub'):
+            f = f[1:]
+            if f and f[0] == ('punct', '('):
+                f = f[match_close(f, 0) + 1:]
+        if tup:
+            js_serde_items(fa, '%s field %d' % (w, idx), ())
+            out.append((str(idx), str(idx), False, sj(f)))
+            continue
+        if len(f) < 3 or f[0][0] != 'id' or f[1] != ('punct', ':'):
+            raise TranslateError('%s: unrecognised field: %s' % (w, sj(f)[:100]))
+        fn_ = fname(f[0][1])
+        wf = '%s field %s' % (w, fn_)
+        items = js_serde_items(fa, wf, (r'skip_serializing_if = "Option::is_none"', r'rename = "\w+"'))
+        ty = sj(f[2:])
+        key_, omit = fn_, False
+        for it in items:
+            mr = re.fullmatch(r'rename = "(\w+)"', it)
+            if mr:
+                key_ = mr.group(1)
+            else:
+                if not re.fullmatch(r'Option < .* >', ty):
+                    raise TranslateError('%s: skip_serializing_if = "Option::is_none" on a field of type %s' % (wf, ty))
+                omit = True
+        if key_ in seen:
+            raise TranslateError('%s: two fields are serialised under the key "%s"' % (w, key_))
+        seen.add(key_)
+        out.append((key_, fn_, omit, ty))
+    return out
+
+
+def sx_map_or(text, where):
+    """`opts . map_or ( <default> , | o | o . <field> )` -> (default text, field)"""
+    m = re.fullmatch(r'opts \. map_or \( (.*) , \| (\w+) \| (\w+) \. (\w+) \)', text)
+    if not m or m.group(2) != m.group(3):
+        raise TranslateError('%s: not `opts.map_or(<default>, |o| o.<field>)`: %s' % (where, text[:200]))
+    return m.group(1), m.group(4)
+
+
+def sx_comp_value(text, where):
+    if text == 'None':
+        return 'WvNone'
+    m = re.fullmatch(r'Some \( Compression :: (LZ4|ZSTD) \)', text)
+    if m:
+        return {'LZ4': 'WvLz4', 'ZSTD': 'WvZstd'}[m.group(1)]
+    raise TranslateError('%s: unrecognised compression value (expected None / Some(Compression::LZ4) / Some(Compression::ZSTD)): %s' % (where, text[:100]))
+
+
+def gen_slpp_write_src():
+    where = '%s fn write' % SLPP_SER
+    params, ret, body = find_fn(SLPP_SER, None, 'write')
+    if sjp(params) != 'w : W , game : Game , opts : Option < & Opts >':
+        raise TranslateError('%s: unexpected parameters: %s' % (where, sjp(params)))
+    if not {'peppi', 'slippi'} <= imported_from(SLPP_SER, ['io']) or 'port_occupancy' not in imported_from(SLPP_SER, ['game']):
+        raise TranslateError('%s: expected `use crate::{game::{immutable::Game, port_occupancy}, io::{peppi, slippi}}`' % SLPP_SER)
+    ser_toks = tokenize(read(SLPP_SER), SLPP_SER)
+    if find_seq(ser_toks, ['immutable', '::', 'Game']) < 0:
+        raise TranslateError('%s: `Game` is not game::immutable::Game' % SLPP_SER)
+    gdecl = parse_struct_decl(tokenize(read(GAME_IMM_RS), GAME_IMM_RS), 'Game', GAME_IMM_RS)
+    if sorted(gdecl) != sorted(SX_GAME_FIELDS):
+        raise TranslateError('%s: struct Game is not { %s }: %s' % (GAME_IMM_RS, ', '.join('%s: %s' % (a, b.replace(' ', '')) for a, b in SX_GAME_FIELDS), gdecl))
+    bdecl = parse_struct_decl(tokenize(read(GAME_RS), GAME_RS), 'Bytes', GAME_RS)
+    if bdecl != [('0', 'Vec < u8 >')]:
+        raise TranslateError('%s: struct Bytes is not (pub Vec<u8>): %s' % (GAME_RS, bdecl))
+    # ---- struct Peppi, Version, Quirks
+    peppi = sx_serde_struct(PEPPI_MOD_RS, 'Peppi')
+    pver = sx_serde_struct(PEPPI_MOD_RS, 'Version', allowed_tuple=True)
+    quirks = sx_serde_struct(GAME_RS, 'Quirks')
+    if [t for _, _, _, t in pver] != ['u8', 'u8', 'u8']:
+        raise TranslateError('%s: struct Version is not (pub u8, pub u8, pub u8)' % PEPPI_MOD_RS)
+    if [(f, t) for _, f, _, t in quirks] != [('double_game_end', 'bool')]:
+        raise TranslateError('%s: struct Quirks is not { double_game_end: bool } (the model keeps exactly this flag): %s' % (GAME_RS, quirks))
+    if 'Quirks' not in imported_from(PEPPI_MOD_RS, ['game']) and find_seq(tokenize(read(PEPPI_MOD_RS), PEPPI_MOD_RS), ['game', '::', 'Quirks']) < 0:
+        raise TranslateError('%s: `Quirks` is not imported from crate::game' % PEPPI_MOD_RS)
+    ptypes = dict((f, t) for _, f, _, t in peppi)
+    if sorted(ptypes.items()) != [('quirks', 'Option < Quirks >'), ('slp_hash', 'Option < String >'), ('version', 'Version')]:
+        raise TranslateError('%s: struct Peppi is not { version: Version, slp_hash: Option<String>, quirks: Option<Quirks> } (the model\'s enc_peppi takes exactly these): %s'
+                             % (PEPPI_MOD_RS, sorted(ptypes.items())))
+    version_const(PEPPI_MOD_RS, 'CURRENT_VERSION')
+
+    contents = []       # (name, coq text)
+    arrow = {}
+    state = {'first': None, 'tar': False, 'fin': False, 'ok': False}
+
+    def json_content(inner, guard, w):
+        """the argument of serde_json::to_vec(..)"""
+        if inner and inner[-1] == ('punct', ','):
+            inner = inner[:-1]
+        v = tv(inner)
+        if v[:4] == ['&', 'peppi', '::', 'Peppi'] or v[:2] == ['&', 'Peppi'] or v[:3] == ['peppi', '::', 'Peppi'] or v[:1] == ['Peppi']:
+            k = v.index('Peppi') + 1
+            if v[0] != '&' or v[1] != 'peppi' or k >= len(v) or v[k] != '{' or match_close(inner, k) != len(inner) - 1:
+                raise TranslateError('%s: not `&peppi::Peppi { .. }`: %s' % (w, sj(inner)[:200]))
+            flds = []
+            for f in af_split(inner[k + 1:-1], w):
+                if not f:
+                    continue
+                if f[0] == ('punct', '..'):
+                    raise TranslateError('%s: `%s` in the Peppi literal: the fields it fills in are not written down in the source (they would be defaults, not the game\'s values)'
+                                         % (w, sj(f)[:80]))
+                if len(f) < 3 or f[0][0] != 'id' or f[1] != ('punct', ':'):
+                    raise TranslateError('%s: field of the Peppi literal is not `<name>: <source>`: %s' % (w, sj(f)[:100]))
+                src = sj(f[2:])
+                if src in ('peppi :: CURRENT_VERSION', 'CURRENT_VERSION', 'super :: CURRENT_VERSION'):
+                    if src != 'peppi :: CURRENT_VERSION':
+                        raise TranslateError('%s: constant not written as peppi::CURRENT_VERSION: %s' % (w, src))
+                    pl, ty = ('WpConst', 'CURRENT_VERSION'), 'Version'
+                else:
+                    if src.startswith('& '):
+                        raise TranslateError('%s: a reference in the Peppi literal: %s' % (w, src[:100]))
+                    pl = sx_place(src, None, w, 'the source of Peppi.%s' % f[0][1])
+                    ty = sx_type_of(pl, None, w)
+                if f[0][1] in [a for a, _ in flds]:
+                    raise TranslateError('%s: Peppi.%s is initialised twice' % (w, f[0][1]))
+                if ptypes.get(f[0][1]) != ty:
+                    raise TranslateError('%s: Peppi.%s (%s) is initialised from %s of type %s' % (w, f[0][1], ptypes.get(f[0][1]), src[:80], ty))
+                flds.append((f[0][1], pl))
+            missing = [f for f in ptypes if f not in [a for a, _ in flds]]
+            if missing:
+                raise TranslateError('%s: the Peppi literal does not initialise %s' % (w, ', '.join(missing)))
+            return 'WcJsonStruct "Peppi" [%s]' % '; '.join('(%s, %s)' % (coq_str(a), sx_coq_place(p)) for a, p in flds)
+        pl = sx_place(sj(inner), guard, w, 'the value serialised')
+        ty = sx_type_of(pl, guard, w)
+        if ty not in ('Option < Map < String , Value > >', 'Start', 'End'):
+            raise TranslateError('%s: serde_json::to_vec of a value of type %s (the model has encoders for the metadata option, game::Start and game::End only)' % (w, ty))
+        return 'WcJson (%s)' % sx_coq_place(pl)
+
+    def buffer_content(group, guard, bufname, w):
+        """the statements that build the local buffer handed to tar_append"""
+        txt = [sj(x) for x in group]
+        if guard is not None:
+            m = strict_match(txt, [
+                ('`let mut %s = <x>.actual_size.to_le_bytes().to_vec()`' % bufname, r'let mut %s = (.*) \. to_(?:le|be)_bytes \( \) \. to_vec \( \)' % bufname),
+                ('`%s.write_all(&<x>.bytes)?`' % bufname, r'%s \. write_all \( (& .*) \) \?' % bufname),
+            ], w)
+            p1 = sx_place(m[0].group(1), guard, w, 'the size prefix')
+            p2 = sx_place(m[1].group(1), guard, w, 'the bytes after the prefix')
+            if sx_type_of(p1, guard, w) != 'u32' or sx_type_of(p2, guard, w) != 'Vec < u8 >':
+                raise TranslateError('%s: the prefix is not a u32 field / the rest is not a Vec<u8> field' % w)
+            return 'WcPrefixedBytes (%s) (%s)' % (sx_coq_place(p1), sx_coq_place(p2))
+        if arrow:
+            raise TranslateError('%s: a second Arrow buffer' % w)
+        pats = [
+            ('`let ports = port_occupancy(&game.start)`', r'let (\w+) = (\w+) \( (.*) \)'),
+            ('`let batch = game.frames.into_struct_array(game.start.slippi.version, &ports)`', r'let (\w+) = (.*) \. (\w+) \( (.*) , & (\w+) \)'),
+            ('`let schema = Schema::from(vec![Field { .. }])`', r'let (\w+) = Schema :: from \( vec ! \[ (.*) \] \)'),
+            ('`let chunk = Chunk::new(vec![Box::new(batch) as Box<dyn Array>])`', r'let (\w+) = Chunk :: new \( vec ! \[ (.*) \] \)'),
+            ('`let mut %s = Vec::new()`' % bufname, r'let mut %s = Vec :: new \( \)' % bufname),
+            ('`let mut writer = FileWriter::try_new(&mut %s, schema, None, WriteOptions { compression: .. })?`' % bufname,
+             r'let mut (\w+) = FileWriter :: try_new \( & mut %s , (\w+) , (\w+) , WriteOptions \{ compression : (.*) \} \) \?' % bufname),
+        ]
+        if len(txt) < len(pats):
+            raise TranslateError('%s: expected the %d statements %s before the writer calls, found: %s' % (w, len(pats), ', '.join(p[0] for p in pats), ' ; '.join(txt)[:300]))
+        m = strict_match(txt[:len(pats)], pats, w)
+        ports, batch, schema, chunk, writer = m[0].group(1), m[1].group(1), m[2].group(1), m[3].group(1), m[5].group(1)
+        if len({ports, batch, schema, chunk, writer, bufname}) != 6:
+            raise TranslateError('%s: two of the locals share a name' % w)
+        if m[0].group(2) != 'port_occupancy':
+            raise TranslateError('%s: the ports are computed by `%s`, not by port_occupancy' % (w, m[0].group(2)))
+        pp = sx_place(m[0].group(3), None, w, 'the argument of port_occupancy')
+        if not m[0].group(3).startswith('& ') or sx_type_of(pp, None, w) != 'Start':
+            raise TranslateError('%s: port_occupancy is not applied to a reference to a game::Start: %s' % (w, m[0].group(3)[:100]))
+        if m[1].group(3) != 'into_struct_array' or m[1].group(5) != ports:
+            raise TranslateError('%s: the batch is not `<frames>.into_struct_array(<version>, &%s)`: %s' % (w, ports, txt[1][:200]))
+        pf = sx_place(m[1].group(2), None, w, 'the receiver of into_struct_array')
+        pv = sx_place(m[1].group(4), None, w, 'the version passed to into_struct_array')
+        if m[1].group(2).startswith('& ') or sx_type_of(pf, None, w) != 'Frame' or sx_type_of(pv, None, w) != 'Version':
+            raise TranslateError('%s: into_struct_array is not called on a Frame with a slippi Version: %s' % (w, txt[1][:200]))
+        # schema
+        fields = []
+        for f in af_split(tokenize(m[2].group(2), w), w):
+            if not f:
+                continue
+            s = sj(f)
+            mf = re.fullmatch(r'Field :: new \( (.*) , (.*) , (true|false) \)', s)
+            if mf:
+                d = {'name': mf.group(1), 'data_type': mf.group(2), 'is_nullable': mf.group(3), 'metadata': 'Default :: default ( )'}
+            elif tv(f[:2]) == ['Field', '{'] and match_close(f, 1) == len(f) - 1:
+                d = {}
+                for g in af_split(f[2:-1], w):
+                    if not g:
+                        continue
+                    if len(g) < 3 or g[0][0] != 'id' or g[1] != ('punct', ':') or g[0][1] in d:
+                        raise TranslateError('%s: unrecognised initialiser in the Field literal: %s' % (w, sj(g)[:100]))
+                    d[g[0][1]] = sj(g[2:])
+                if sorted(d) != ['data_type', 'is_nullable', 'metadata', 'name']:
+                    raise TranslateError('%s: the Field literal does not initialise exactly name, data_type, is_nullable, metadata: %s' % (w, sorted(d)))
+            else:
+                raise TranslateError('%s: schema element is not `Field { .. }` / `Field::new(..)`: %s' % (w, s[:200]))
+            mn = re.fullmatch(r'"([A-Za-z0-9_]+)" \. (?:to_string|to_owned|into) \( \)', d['name']) or re.fullmatch(r'String :: from \( "([A-Za-z0-9_]+)" \)', d['name']) \
+                or (mf and re.fullmatch(r'"([A-Za-z0-9_]+)"', d['name']))
+            if not mn:
+                raise TranslateError('%s: the field name is not a plain string literal: %s' % (w, d['name'][:100]))
+            if d['data_type'] != '%s . data_type ( ) . clone ( )' % batch:
+                raise TranslateError('%s: the field type is not taken from the batch (`%s.data_type().clone()`): %s' % (w, batch, d['data_type'][:100]))
+            if d['is_nullable'] not in ('true', 'false'):
+                raise TranslateError('%s: is_nullable is not a literal: %s' % (w, d['is_nullable'][:100]))
+            if d['metadata'] not in ('Default :: default ( )', 'Metadata :: default ( )', 'Metadata :: new ( )'):
+                raise TranslateError('%s: the field metadata is not empty (Default::default()): %s' % (w, d['metadata'][:100]))
+            fields.append((mn.group(1), 'AdtOfBatch', d['is_nullable']))
+        # chunk
+        arrs = []
+        for f in af_split(tokenize(m[3].group(2), w), w):
+            if not f:
+                continue
+            s = sj(f)
+            if s in ('Box :: new ( %s ) as Box < dyn Array >' % batch, '%s . boxed ( )' % batch, 'Box :: new ( %s )' % batch):
+                arrs.append('AaBatch')
+            else:
+                raise TranslateError('%s: chunk element is not the boxed batch: %s' % (w, s[:200]))
+        if arrs.count('AaBatch') > 1:
+            raise TranslateError('%s: the batch is moved into the chunk twice' % w)
+        if m[5].group(2) != schema:
+            raise TranslateError('%s: FileWriter::try_new is given `%s`, not the schema `%s`' % (w, m[5].group(2), schema))
+        if m[5].group(3) != 'None':
+            raise TranslateError('%s: FileWriter::try_new is given explicit IPC fields: %s' % (w, m[5].group(3)))
+        ce = m[5].group(4)
+        if ce.startswith('opts'):
+            dflt, fld = sx_map_or(ce, w)
+            od = dict(parse_struct_decl(ser_toks, 'Opts', SLPP_SER))
+            if od.get(fld) != 'Option < Compression >':
+                raise TranslateError('%s: Opts.%s is not an Option<Compression> field' % (SLPP_SER, fld))
+            comp = 'WzOptsMapOr %s %s' % (sx_comp_value(dflt, w), coq_str(fld))
+        else:
+            comp = 'WzConst %s' % sx_comp_value(ce, w)
+        calls = []
+        for s in txt[len(pats):]:
+            if s == '%s . write ( & %s , None ) ?' % (writer, chunk):
+                calls.append('AwWriteChunk')
+            elif s == '%s . finish ( ) ?' % writer:
+                calls.append('AwFinish')
+            else:
+                raise TranslateError('%s: unrecognised statement after FileWriter::try_new (expected `%s.write(&%s, None)?` / `%s.finish()?`, every error propagated): %s'
+                                     % (w, writer, chunk, writer, s[:200]))
+        arrow.update(ports=('port_occupancy', pp), batch=(pf, 'into_struct_array', pv), schema=fields, chunk=arrs, comp=comp, calls=calls)
+        return 'WcArrowFile'
+
+    def tar_call(st):
+        """`tar_append(&mut tar, <content>, "<name>")?` -> (content tokens, name) or None"""
+        if tv(st[:2]) != ['tar_append', '('] or tv(st[-1:]) != ['?'] or match_close(st, 1) != len(st) - 2:
+            return None
+        args = [a for a in af_split(st[2:-2], where) if a]
+        if len(args) != 3 or sj(args[0]) != '& mut tar' or len(args[2]) != 1 or args[2][0][0] != 'str':
+            raise TranslateError('%s: tar_append: expected (&mut tar, <content>, "<name>"): %s' % (where, sj(st)[:200]))
+        return args[1], args[2][0][1][1:-1]
+
+    def block(toks, guard, level):
+        pending = []
+        sts = fw_stmts(toks, where)
+        for k, st in enumerate(sts):
+            s = sj(st)
+            if level == 'top' and k == 0:
+                m = re.fullmatch(r'slippi :: (\w+) \( (.*) \) \?', s)
+                if not m or m.group(1) != 'assert_max_version':
+                    raise TranslateError('%s: the first statement is not `slippi::assert_max_version(<version>)?`: %s' % (where, s[:200]))
+                pl = sx_place(m.group(2), None, where, 'the version checked')
+                if m.group(2).startswith('& ') or sx_type_of(pl, None, where) != 'Version' or pl[1][-2:] != ['slippi', 'version']:
+                    raise TranslateError('%s: assert_max_version is not applied to a slippi Version field: %s' % (where, m.group(2)[:100]))
+                state['first'] = pl
+                continue
+            if 'assert_max_version' in s.split(' '):
+                raise TranslateError('%s: assert_max_version is not (only) the first statement: %s' % (where, s[:200]))
+            if level == 'top' and s == 'let mut tar = tar :: Builder :: new ( w )' and not state['tar'] and not pending:
+                state['tar'] = True
+                continue
+            if level == 'top' and re.fullmatch(r'tar(?: \. \w+ \( \) \?)+', s) and not pending and not state['fin']:
+                state['fin'] = True          # the closing statement: front end (w)
+                continue
+            if level == 'top' and s == 'Ok ( ( ) )' and k == len(sts) - 1 and not pending:
+                state['ok'] = True
+                continue
+            if state['fin']:
+                raise TranslateError('%s: statement after the archive is closed: %s' % (where, s[:200]))
+            tc = tar_call(st)
+            if tc is not None:
+                content, name = tc
+                w = '%s (entry %s)' % (where, name)
+                if name in [n for n, _ in contents]:
+                    raise TranslateError('%s: appended twice' % w)
+                cs = sj(content)
+                mb = re.fullmatch(r'& (\w+)', cs)
+                if mb and mb.group(1) != 'game' and not (guard and mb.group(1) == guard[0]):
+                    if not pending:
+                        raise TranslateError('%s: the content `%s` is a local that is not built in the same block immediately before the call' % (w, cs))
+                    contents.append((name, buffer_content(pending, guard, mb.group(1), w)))
+                    pending = []
+                    continue
+                if pending:
+                    raise TranslateError('%s: unrecognised statement(s) before the call: %s' % (w, ' ; '.join(sj(x) for x in pending)[:300]))
+                v = tv(content)
+                if 'to_vec' in v or 'to_string' in v or 'to_writer' in v or 'serde_json' in v or 'json' in v:
+                    if v[:5] != ['&', 'serde_json', '::', 'to_vec', '('] or v[-1] != '?' or match_close(content, 4) != len(content) - 2:
+                        raise TranslateError('%s: the content is not `&serde_json::to_vec(<value>)?`: %s' % (w, cs[:200]))
+                    contents.append((name, json_content(content[5:-2], guard, w)))
+                    continue
+                if not cs.startswith('& '):
+                    raise TranslateError('%s: the content is not a reference to a byte buffer: %s' % (w, cs[:200]))
+                pl = sx_place(cs, guard, w, 'the raw content')
+                if sx_type_of(pl, guard, w) != 'Vec < u8 >':
+                    raise TranslateError('%s: the raw content %s is not a Vec<u8> (expected `<record>.bytes.0`)' % (w, cs[:100]))
+                contents.append((name, 'WcRaw (%s)' % sx_coq_place(pl)))
+                continue
+            if tv(st[:1]) == ['if']:
+                ib = fw_if_block(st, where)
+                m = re.fullmatch(r'let Some \( (\w+) \) = & game \. (\w+)', ib[0])
+                if not m or guard is not None or level != 'top' or pending:
+                    raise TranslateError('%s: unrecognised `if` (only a top-level `if let Some(x) = &game.<field> { .. }` without else): %s' % (where, s[:200]))
+                gty = re.fullmatch(r'Option < (\w+) >', dict(gdecl).get(m.group(2), ''))
+                if not gty:
+                    raise TranslateError('%s: game.%s is not an Option field of struct Game' % (where, m.group(2)))
+                block(ib[1], (m.group(1), gty.group(1), m.group(2)), 'if')
+                continue
+            if tv(st[:1]) == ['{'] and match_close(st, 0) == len(st) - 1:
+                if pending or level != 'top':
+                    raise TranslateError('%s: unrecognised nesting of a block: %s' % (where, s[:200]))
+                block(st[1:-1], None, 'block')
+                continue
+            if tv(st[:1]) == ['return'] or ('id', 'return') in st:
+                raise TranslateError('%s: `return`: the entries after it would be conditional: %s' % (where, s[:200]))
+            pending.append(st)
+        if pending:
+            raise TranslateError('%s: unrecognised statement(s): %s' % (where, ' ; '.join(sj(x) for x in pending)[:300]))
+
+    block(body, None, 'top')
+    if not (state['first'] and state['tar'] and state['fin'] and state['ok']):
+        raise TranslateError('%s: expected assert_max_version first, `let mut tar = tar::Builder::new(w)`, a closing `tar.<..>()?` statement and a final `Ok(())`: %s' % (where, state))
+    if not arrow:
+        raise TranslateError('%s: no entry is built by an Arrow FileWriter' % where)
+
+    L = []
+    L.append('(* GENERATED by tools/rust2coq.py from %s (fn write: the first statement, the content of every tar_append, the frames.arrow buffer),' % SLPP_SER)
+    L.append('   %s (struct Peppi, struct Version), %s (struct Quirks, struct Bytes) and %s (struct Game) -- do not edit. *)' % (PEPPI_MOD_RS, GAME_RS, GAME_IMM_RS))
+    L.append('From Coq Require Import List String.')
+    L.append('Import ListNotations.')
+    L.append('Local Open Scope string_scope.')
+    L.append('')
+    L.append('(* where a value comes from: WpGame [f; g; ..] = game.f.g..; WpGuard [f; ..] = x.f.. for the x bound by the enclosing `if let Some(x) = &game.<guard>`')
+    L.append('   (the guard of the entry is in Gen/SlppEntries.v slpp_write_entries); WpConst c = peppi::c.  The value is used AS IS: no method call is accepted *)')
+    L.append('Inductive wplace := WpGame (path : list string) | WpGuard (path : list string) | WpConst (name : string).')
+    L.append('(* the content handed to tar_append:')
+    L.append('   WcJsonStruct T fs  = &serde_json::to_vec(&peppi::T { f: <source>, .. })?  (every field of T written down, no `..`);')
+    L.append('   WcJson p           = &serde_json::to_vec(<p>)?  (an Option stays an Option);   WcRaw p = &<p>  (a Vec<u8>);')
+    L.append('   WcPrefixedBytes a b = let mut buf = <a>.to_<le|be>_bytes().to_vec(); buf.write_all(&<b>)?; .. &buf  (byte order: Gen/SlppHelpers.v);')
+    L.append('   WcArrowFile        = the buffer written by the Arrow FileWriter below *)')
+    L.append('Inductive wcontent :=')
+    L.append('| WcJsonStruct (ty : string) (fields : list (string * wplace)) | WcJson (p : wplace) | WcRaw (p : wplace)')
+    L.append('| WcPrefixedBytes (size : wplace) (bytes : wplace) | WcArrowFile.')
+    L.append('(* fn write(w, game: Game, opts: Option<&Opts>): the first statement `slippi::%s(%s)?` *)' % ('assert_max_version', 'game.' + '.'.join(state['first'][1])))
+    L.append('Definition slpp_write_first : string * wplace := ("assert_max_version", %s).' % sx_coq_place(state['first']))
+    L.append('(* the content of every `tar_append(&mut tar, <content>, "<name>")?`, in source order *)')
+    L.append('Definition slpp_write_contents : list (string * wcontent) :=\n  [%s].' % ';\n   '.join('(%s, %s)' % (coq_str(n), c) for n, c in contents))
+    L.append('')
+    L.append('(* the frames.arrow buffer: let ports = %s(&%s); let batch = %s.%s(%s, &ports); *)' % (
+        arrow['ports'][0], 'game.' + '.'.join(arrow['ports'][1][1]), 'game.' + '.'.join(arrow['batch'][0][1]), arrow['batch'][1], 'game.' + '.'.join(arrow['batch'][2][1])))
+    L.append('Definition slpp_arrow_ports : string * wplace := (%s, %s).' % (coq_str(arrow['ports'][0]), sx_coq_place(arrow['ports'][1])))
+    L.append('Definition slpp_arrow_batch : wplace * string * wplace := (%s, %s, %s).      (* receiver, method, first argument; the second is &ports *)' % (
+        sx_coq_place(arrow['batch'][0]), coq_str(arrow['batch'][1]), sx_coq_place(arrow['batch'][2])))
+    L.append('(* let schema = Schema::from(vec![Field { name, data_type: batch.data_type().clone(), is_nullable, metadata: <empty> }, ..]): (name, type, nullable) *)')
+    L.append('Inductive arrow_dt := AdtOfBatch.')
+    L.append('Definition slpp_arrow_schema : list (string * arrow_dt * bool) := [%s].' % '; '.join('(%s, %s, %s)' % (coq_str(a), b_, c) for a, b_, c in arrow['schema']))
+    L.append('(* let chunk = Chunk::new(vec![Box::new(batch) as Box<dyn Array>, ..]) *)')
+    L.append('Inductive arrow_arr := AaBatch.')
+    L.append('Definition slpp_arrow_chunk : list arrow_arr := [%s].' % '; '.join(arrow['chunk']))
+    L.append('(* let mut buf = Vec::new(); let mut writer = FileWriter::try_new(&mut buf, schema, None, WriteOptions { compression: <..> })?:')
+    L.append('   WzOptsMapOr d f = opts.map_or(<d>, |o| o.<f>)  (d: the value when the caller passes no options); WzConst v = a constant *)')
+    L.append('Inductive wcompv := WvNone | WvLz4 | WvZstd.')
+    L.append('Inductive wcomp := WzOptsMapOr (default : wcompv) (field : string) | WzConst (v : wcompv).')
+    L.append('Definition slpp_arrow_compression : wcomp := %s.' % arrow['comp'])
+    L.append('(* .. then, in order: AwWriteChunk = writer.write(&chunk, None)?; AwFinish = writer.finish()?; then tar_append(.., &buf, ..) *)')
+    L.append('Inductive arrow_wstep := AwWriteChunk | AwFinish.')
+    L.append('Definition slpp_arrow_writer_calls : list arrow_wstep := [%s].' % '; '.join(arrow['calls']))
+    L.append('')
+    L.append('(* %s `#[derive(.., Serialize)] pub struct Peppi`: (JSON key, Rust field, true = #[serde(skip_serializing_if = "Option::is_none")]), in declaration order *)' % PEPPI_MOD_RS)
+    L.append('Definition slpp_peppi_struct : list (string * string * bool) := [%s].' % '; '.join('(%s, %s, %s)' % (coq_str(k), coq_str(f), 'true' if o else 'false') for k, f, o, _ in peppi))
+    L.append('(* `pub struct Version(pub u8, pub u8, pub u8)` (a JSON array of its fields) and %s `pub struct Quirks` *)' % GAME_RS)
+    L.append('Definition slpp_peppi_version_arity : nat := %d.' % len(pver))
+    L.append('Definition slpp_quirks_struct : list (string * string * bool) := [%s].' % '; '.join('(%s, %s, %s)' % (coq_str(k), coq_str(f), 'true' if o else 'false') for k, f, o, _ in quirks))
+    L.append('(* %s `pub struct Game`: (field, true = an Option<..>) *)' % GAME_IMM_RS)
+    L.append('Definition slpp_game_fields : list (string * bool) := [%s].' % '; '.join('(%s, %s)' % (coq_str(a), 'true' if b_.startswith('Option <') else 'false') for a, b_ in gdecl))
+    return '\n'.join(L) + '\n'
+
+
+# ------------------------------------------------------------------------------------------------
+# (y) .slpp reader-assembly front end: the accumulators of fn read (src/io/peppi/de.rs), the statements of the arm that is not one of the
+#     helper arms of front end (n) (the frames.arrow arm), and the assembly of the Game after the loop;
+# (z) fn read_arrow_frames: the magic bytes, the prologue, what happens on each item of the Arrow stream and after the loop
+#     -> Gen/SlppReadSrc.v   (names / break / targets of the arms: front end (d); the helper arms: (n))
+
+SY_ERR = r'err ! \( .* \)'
+
+
+def sy_frames_arm(name, bd, accs, where):
+    w = '%s (arm %s)' % (where, name)
+    toks = tokenize(bd, w)
+    sts = fw_stmts(toks, w)
+    txt = [sj(x) for x in sts]
+    if len(sts) != 3 or txt[2] != 'break':
+        raise TranslateError('%s: expected three statements `let version = ..?; <acc> = Some(match opts.map_or(..) { .. }); break`: %s' % (w, ' ; '.join(txt)[:400]))
+    m = re.fullmatch(r'let (\w+) = (\w+) \. as_ref \( \) \. map \( \| (\w+) \| (\w+)((?: \. \w+)+) \) \. ok_or \( %s \) \?' % SY_ERR, txt[0])
+    if not m or m.group(3) != m.group(4) or m.group(2) not in accs:
+        c = sx_changer(re.sub(r'\. (?:as_ref|map|ok_or) \(', '(', txt[0]))
+        raise TranslateError('%s: statement 1 is not `let version = <acc>.as_ref().map(|s| s.<path>).ok_or(err!(..))?`%s: %s'
+                             % (w, ' (`.%s(..)`: a missing accumulator would not be an error)' % c if c else '', txt[0][:300]))
+    vvar, vacc, vpath = m.group(1), m.group(2), re.findall(r'\. (\w+)', m.group(5))
+    if sx_type_of(('WpGuard', vpath), (None, 'Start'), w) != 'Version' or accs[vacc] != 'game :: Start':
+        raise TranslateError('%s: the version is not a slippi Version field of the game::Start accumulator' % w)
+    st = sts[1]
+    v = tv(st)
+    if len(st) < 8 or st[0][0] != 'id' or v[1:5] != ['=', 'Some', '(', 'match'] or match_close(st, 3) != len(st) - 1:
+        raise TranslateError('%s: statement 2 is not `<acc> = Some(match <test> { .. })`: %s' % (w, txt[1][:300]))
+    target = v[0]
+    if target not in accs:
+        raise TranslateError('%s: `%s` is not one of the accumulators %s' % (w, target, list(accs)))
+    j = StmtView(st, w).first_top(5, len(st) - 1, '{')
+    if j < 0 or match_close(st, j) != len(st) - 2:
+        raise TranslateError('%s: unexpected tokens after the match: %s' % (w, txt[1][:300]))
+    dflt, fld = sx_map_or(sj(st[5:j]), w + ' (the test)')
+    if dflt not in ('true', 'false'):
+        raise TranslateError('%s: the default of the test is not a bool literal: %s' % (w, dflt[:50]))
+    od = dict(parse_struct_decl(tokenize(read(SLPP_DE), SLPP_DE), 'Opts', SLPP_DE))
+    if od.get(fld) != 'bool':
+        raise TranslateError('%s: Opts.%s is not a bool field' % (SLPP_DE, fld))
+    arms = match_arms(st[j + 1:len(st) - 2], w)
+    pats = [a for a, _ in arms]
+    if len(arms) != 2 or pats[0] not in ('true', 'false') or pats[1] not in ('true', 'false', '_') or pats[0] == pats[1]:
+        raise TranslateError('%s: the arms of the match are not `true => .., _ => ..` (or false / true in either order): %s' % (w, pats))
+    branch = {}
+    branch[pats[0]] = arms[0][1]
+    branch['false' if pats[0] == 'true' else 'true'] = arms[1][1]
+
+    def ver(text, binder):
+        if text == vvar:
+            return 'FvLocalVersion'
+        mm = re.fullmatch(r'(\w+)((?: \. \w+)+)', text)
+        if mm and binder is not None and mm.group(1) == binder:
+            p = re.findall(r'\. (\w+)', mm.group(2))
+            if sx_type_of(('WpGuard', p), (None, 'Start'), w) != 'Version':
+                raise TranslateError('%s: %s is not a slippi Version' % (w, text))
+            return 'FvStartField [%s]' % '; '.join(coq_str(x) for x in p)
+        raise TranslateError('%s: unrecognised version expression (expected `%s` or a field path from the bound start): %s' % (w, vvar, text[:100]))
+
+    def steps(text, which):
+        ww = '%s (%s branch)' % (w, which)
+        bt = tokenize(text, ww)
+        out = []
+        binder = size = buf = None
+        bs = fw_stmts(bt, ww)
+        for k, x in enumerate(bs):
+            s = sj(x)
+            last = k == len(bs) - 1
+            if any(o.startswith('FbEmptyFrames') or o.startswith('FbDecode') for o in out):
+                raise TranslateError('%s: statement after the value of the branch: %s' % (ww, s[:200]))
+            mm = re.fullmatch(r'let (\w+) = (\w+) \. as_ref \( \) \. ok_or \( %s \) \?' % SY_ERR, s)
+            if mm and mm.group(2) in accs and accs[mm.group(2)] == 'game :: Start' and binder is None:
+                binder = mm.group(1)
+                out.append('FbRequireStart %s' % coq_str(mm.group(2)))
+                continue
+            mm = re.fullmatch(r'MutableFrame :: with_capacity \( (\d+) , (.*) , & (\w+) \( (\w+) \) \) \. into \( \)', s)
+            if mm and last:
+                if binder is None or mm.group(4) != binder:
+                    raise TranslateError('%s: the ports are not computed from the start bound by `let <s> = <acc>.as_ref().ok_or(..)?` in this branch: %s' % (ww, s[:200]))
+                if mm.group(3) != 'port_occupancy':
+                    raise TranslateError('%s: the ports are computed by `%s`, not by port_occupancy' % (ww, mm.group(3)))
+                out.append('FbEmptyFrames %d%%N %s %s' % (int(mm.group(1)), cparen(ver(mm.group(2), binder)), coq_str(mm.group(3))))
+                continue
+            mm = re.fullmatch(r'let (\w+) = file \. size \( \)', s)
+            if mm and size is None:
+                size = mm.group(1)
+                out.append('FbDeclaredSize')
+                continue
+            mm = re.fullmatch(r'let mut (\w+) = Vec :: new \( \)', s)
+            if mm and buf is None:
+                buf = mm.group(1)
+                out.append('FbNewBuf')
+                continue
+            if buf is not None and s == 'file . read_to_end ( & mut %s ) ?' % buf:
+                out.append('FbReadToEnd')
+                continue
+            mm = re.fullmatch(r'if (.*) \{ return Err \( %s \) ; \}' % SY_ERR, s)
+            if mm:
+                mc = re.fullmatch(r'\( %s \. len \( \) as u64 \) (<|<=|!=) %s' % (buf, size), mm.group(1)) if buf and size else None
+                if not mc:
+                    raise TranslateError('%s: the test is not `(<buf>.len() as u64) < <size>` over the buffer read and `file.size()`: %s' % (ww, mm.group(1)[:200]))
+                out.append('FbShortIsErr %s' % {'<': 'FcLt', '<=': 'FcLe', '!=': 'FcNe'}[mc.group(1)])
+                continue
+            mm = re.fullmatch(r'(\w+) \( & (\w+) \[ \.\. \] , (.*) \) \?', s)
+            if mm and last and buf is not None and mm.group(2) == buf:
+                if mm.group(1) != 'read_arrow_frames':
+                    raise TranslateError('%s: the entry is decoded by `%s`, not by read_arrow_frames' % (ww, mm.group(1)))
+                out.append('FbDecode %s %s' % (coq_str(mm.group(1)), cparen(ver(mm.group(3), binder))))
+                continue
+            raise TranslateError('%s: unrecognised statement: %s' % (ww, s[:300]))
+        if not out or not (out[-1].startswith('FbEmptyFrames') or out[-1].startswith('FbDecode')):
+            raise TranslateError('%s: the branch does not end with an empty frame table or a call of read_arrow_frames' % ww)
+        return out
+
+    if find_seq(tokenize(read(SLPP_DE), SLPP_DE), ['mutable', '::', 'Frame', 'as', 'MutableFrame']) < 0 or 'port_occupancy' not in imported_from(SLPP_DE, ['game']):
+        raise TranslateError('%s: expected `frame::mutable::Frame as MutableFrame` and `game::port_occupancy` among the imports' % SLPP_DE)
+    return dict(name=name, target=target, vacc=vacc, vpath=vpath, dflt=dflt, fld=fld, when_true=steps(branch['true'], 'true'), when_false=steps(branch['false'], 'false'))
+
+
+def sz_read_arrow_frames():
+    where = '%s fn read_arrow_frames' % SLPP_DE
+    params, ret, body = find_fn(SLPP_DE, None, 'read_arrow_frames')
+    if sjp(params) != 'mut r : R , version : slippi :: Version' or sj(ret) != '-> Result < Frame >':
+        raise TranslateError('%s: unexpected signature (%s) %s' % (where, sjp(params), sj(ret)))
+    for t in body:
+        if t[0] == 'id' and t[1] in ('is_empty', 'len', 'num_rows', 'filter', 'skip_while', 'skip'):
+            raise TranslateError('%s: `%s`: a test or adaptor that can skip a batch (an EMPTY record batch is still the one batch of a zero-frame game)' % (where, t[1]))
+    if 'expect_bytes' not in imported_from(SLPP_DE, ['io']):
+        raise TranslateError('%s: expect_bytes is not imported from crate::io' % SLPP_DE)
+    sts = fw_stmts(body, where)
+    txt = [sj(x) for x in sts]
+    if len(sts) != 6:
+        raise TranslateError('%s: expected 6 statements (expect_bytes, read_stream_metadata, StreamReader::new, let mut frame, the loop, the final match), found %d' % (where, len(sts)))
+    m = strict_match(txt[:4], [
+        ('`expect_bytes(&mut r, &[<bytes>])?`', r'expect_bytes \( & mut r , & \[ ([0-9a-fx ,]+) \] \) \?'),
+        ('`let metadata = read_stream_metadata(&mut r)?`', r'let (\w+) = read_stream_metadata \( & mut r \) \?'),
+        ('`let reader = StreamReader::new(r, metadata, None)`', r'let (?:mut )?(\w+) = StreamReader :: new \( r , (\w+) , None \)'),
+        ('`let mut frame: Option<Frame> = None`', r'let mut (\w+) : Option < Frame > = None'),
+    ], where)
+    magic = [num(x) for x in m[0].group(1).split(' , ') if x.strip()]
+    if m[2].group(2) != m[1].group(1):
+        raise TranslateError('%s: StreamReader::new is not given the metadata read just before' % where)
+    reader, frame = m[2].group(1), m[3].group(1)
+    fb = fw_for_block(sts[4], where)
+    mh = re.fullmatch(r'(\w+) in %s' % reader, fb[0]) if fb else None
+    if not mh:
+        raise TranslateError('%s: statement 5 is not `for <item> in %s { .. }`: %s' % (where, reader, txt[4][:200]))
+    inner = fw_stmts(fb[1], where)
+    if len(inner) != 1 or tv(inner[0][:4]) != ['match', mh.group(1), '?', '{'] or match_close(inner[0], 3) != len(inner[0]) - 1:
+        raise TranslateError('%s: the loop body is not exactly `match %s? { .. }` (an error of the stream must propagate)' % (where, mh.group(1)))
+
+    def action(bd, ww, chunk=None):
+        b = bd[:-2] if bd.endswith(' ;') and ' ; ' not in bd else bd
+        if re.fullmatch(r'return Err \( %s \)' % SY_ERR, b):
+            return 'RaErr'
+        if b in ('continue', '', '( )'):
+            return 'RaIgnore'
+        if b == 'break':
+            return 'RaStop'
+        if chunk is not None:
+            ss = [sj(x) for x in fw_stmts(tokenize(bd, ww), ww)]
+            if len(ss) == 2:
+                m1 = re.fullmatch(r'let (\w+) = %s \. arrays \( \) \[ (\d+) \] \. as_any \( \) \. downcast_ref :: < (\w+) > \( \) \. (?:expect \( ".*" \)|unwrap \( \))' % chunk, ss[0])
+                m2 = re.fullmatch(r'%s = Some \( Frame :: (\w+) \( (\w+) \. clone \( \) , version \) \)' % frame, ss[1])
+                if m1 and m2 and m2.group(2) == m1.group(1):
+                    return 'RaStoreDecoded %d %s %s' % (int(m1.group(2)), coq_str(m1.group(3)), coq_str(m2.group(1)))
+        raise TranslateError('%s: unrecognised action (expected `return Err(err!(..))`, or `let f = <chunk>.arrays()[<k>].as_any().downcast_ref::<StructArray>().expect(..); '
+                             '%s = Some(Frame::from_struct_array(f.clone(), version))`): %s' % (ww, frame, bd[:300]))
+
+    acts = {}
+    for pat, bd in match_arms(inner[0][4:-1], where):
+        mp = re.fullmatch(r'StreamState :: Some \( (\w+) \)', pat)
+        if mp and 'chunk' not in acts:
+            bt = tokenize(bd, where)
+            if tv(bt[:3]) != ['match', frame, '{'] or match_close(bt, 2) != len(bt) - 1:
+                raise TranslateError('%s: the StreamState::Some arm is not `match %s { None => .., Some(_) => .. }`: %s' % (where, frame, bd[:200]))
+            sub = match_arms(bt[3:-1], where)
+            if [a for a, _ in sub] not in (['None', 'Some ( _ )'], ['Some ( _ )', 'None'], ['None', '_']):
+                raise TranslateError('%s: the arms on `%s` are not None / Some(_): %s' % (where, frame, [a for a, _ in sub]))
+            for a, b in sub:
+                acts['first' if a == 'None' else 'again'] = action(b, '%s (a chunk when %s is %s)' % (where, frame, a), mp.group(1))
+            acts['chunk'] = True
+        elif pat == 'StreamState :: Waiting' and 'waiting' not in acts:
+            acts['waiting'] = action(bd, '%s (StreamState::Waiting)' % where)
+        else:
+            raise TranslateError('%s: unrecognised or repeated arm: %s' % (where, pat[:100]))
+    if sorted(acts) != ['again', 'chunk', 'first', 'waiting']:
+        raise TranslateError('%s: the loop does not handle exactly StreamState::Some and StreamState::Waiting' % where)
+    bt = sts[5]
+    if tv(bt[:3]) != ['match', frame, '{'] or match_close(bt, 2) != len(bt) - 1:
+        raise TranslateError('%s: the last statement is not `match %s { .. }`: %s' % (where, frame, txt[5][:200]))
+    fin = {}
+    for a, b in match_arms(bt[3:-1], where):
+        mp = re.fullmatch(r'Some \( (\w+) \)', a)
+        if mp and b == 'Ok ( %s )' % mp.group(1) and 'some' not in fin:
+            fin['some'] = 'RaOkStored'
+        elif a in ('_', 'None') and re.fullmatch(r'Err \( %s \)' % SY_ERR, b) and 'none' not in fin:
+            fin['none'] = 'RaErr'
+        else:
+            raise TranslateError('%s: unrecognised arm of the final match (expected `Some(f) => Ok(f), _ => Err(err!(..))`): %s => %s' % (where, a[:60], b[:100]))
+    if sorted(fin) != ['none', 'some']:
+        raise TranslateError('%s: the final match does not have exactly the arms Some(f) / _' % where)
+    D = []
+    D.append('(* %s (r, version): expect_bytes(&mut r, &[..])?; let metadata = read_stream_metadata(&mut r)?; let reader = StreamReader::new(r, metadata, None);' % where)
+    D.append('   let mut frame: Option<Frame> = None; for result in reader { match result? { .. } }; match frame { Some(f) => Ok(f), _ => Err(..) } *)')
+    D.append('Definition arrow_stream_magic : list N := [%s]%%N.' % '; '.join(str(x) for x in magic))
+    D.append('Inductive raf_pro := RpExpectMagic | RpReadStreamMetadata | RpNewStreamReader.')
+    D.append('Definition raf_prologue : list raf_pro := [RpExpectMagic; RpReadStreamMetadata; RpNewStreamReader].')
+    D.append('(* RaStoreDecoded k T f: let a = chunk.arrays()[k] downcast to T (a panic otherwise); frame = Some(Frame::f(a.clone(), version));')
+    D.append('   RaErr: return Err(err!(..)); RaIgnore: nothing (the loop goes on); RaStop: break; RaOkStored: Ok(the stored frame) *)')
+    D.append('Inductive raf_act := RaStoreDecoded (array_index : nat) (downcast : string) (decoder : string) | RaErr | RaIgnore | RaStop | RaOkStored.')
+    D.append('Definition raf_item_error_propagates : bool := true.     (* match result? { .. } *)')
+    D.append('Definition raf_on_chunk_first : raf_act := %s.     (* StreamState::Some(chunk) while frame is None *)' % acts['first'])
+    D.append('Definition raf_on_chunk_again : raf_act := %s.     (* StreamState::Some(chunk) while frame is Some(_) *)' % acts['again'])
+    D.append('Definition raf_on_waiting : raf_act := %s.     (* StreamState::Waiting *)' % acts['waiting'])
+    D.append('Definition raf_end_with_frame : raf_act := %s.     (* after the loop: Some(f) *)' % fin['some'])
+    D.append('Definition raf_end_without_frame : raf_act := %s.     (* after the loop: no batch was seen *)' % fin['none'])
+    return D
+
+
+def gen_slpp_read_src():
+    where = '%s fn read' % SLPP_DE
+    params, ret, body = find_fn(SLPP_DE, None, 'read')
+    if sjp(params) != 'r : R , opts : Option < & Opts >' or sj(ret) != '-> Result < Game >':
+        raise TranslateError('%s: unexpected signature (%s) %s' % (where, sjp(params), sj(ret)))
+    de_toks = tokenize(read(SLPP_DE), SLPP_DE)
+    if find_seq(de_toks, ['immutable', '::', 'Game']) < 0:
+        raise TranslateError('%s: `Game` is not game::immutable::Game' % SLPP_DE)
+    gdecl = parse_struct_decl(tokenize(read(GAME_IMM_RS), GAME_IMM_RS), 'Game', GAME_IMM_RS)
+    if sorted(gdecl) != sorted(SX_GAME_FIELDS):
+        raise TranslateError('%s: struct Game is not { %s }: %s' % (GAME_IMM_RS, ', '.join('%s: %s' % (a, b.replace(' ', '')) for a, b in SX_GAME_FIELDS), gdecl))
+    pdecl = dict((f, t) for _, f, _, t in sx_serde_struct(PEPPI_MOD_RS, 'Peppi'))
+    sts = fw_stmts(body, where)
+    accs = {}
+    order = []
+    loop = None
+    prelude = []        # (binder, acc)
+    final = None
+    for k, st in enumerate(sts):
+        s = sj(st)
+        m = re.fullmatch(r'let mut (\w+) : Option < (.*) > = (.*)', s)
+        if m:
+            if loop is not None or m.group(1) in accs:
+                raise TranslateError('%s: an accumulator declared after the loop, or twice: %s' % (where, s[:200]))
+            if m.group(3) != 'None':
+                raise TranslateError('%s: the accumulator %s does not start as None: %s' % (where, m.group(1), s[:200]))
+            accs[m.group(1)] = m.group(2)
+            order.append(m.group(1))
+            continue
+        if tv(st[:1]) == ['for'] and loop is None:
+            loop = st
+            continue
+        if loop is not None:
+            m = re.fullmatch(r'let (\w+) = (\w+) \. ok_or \( %s \) \?' % SY_ERR, s)
+            if m and m.group(2) in accs and m.group(2) not in [a for _, a in prelude] and final is None:
+                prelude.append((m.group(1), m.group(2)))
+                continue
+            if tv(st[:4]) == ['Ok', '(', 'Game', '{'] and k == len(sts) - 1 and match_close(st, 1) == len(st) - 1 and match_close(st, 3) == len(st) - 2:
+                final = st[4:-2]
+                continue
+        c = sx_changer(s)
+        if c in ('unwrap_or_default', 'unwrap_or', 'unwrap_or_else', 'unwrap', 'expect') and any(('id', a) in st for a in accs):
+            raise TranslateError('%s: `.%s(..)` on an accumulator: a missing entry would not be an error (or would be a panic): %s' % (where, c, s[:200]))
+        raise TranslateError('%s: unrecognised statement (expected the `let mut <acc>: Option<..> = None` lines, the entry loop, `let x = <acc>.ok_or(err!(..))?` lines, '
+                             '`Ok(Game { .. })`): %s' % (where, s[:300]))
+    if loop is None or final is None:
+        raise TranslateError('%s: no entry loop / no final `Ok(Game { .. })`' % where)
+    binders = dict(prelude)
+    live = [a for a in accs if a not in [x for _, x in prelude] and a not in binders]     # accumulators still visible as Options
+    required = [a for _, a in prelude]
+    asm = []
+    used = set(a for _, a in prelude)
+    for f in af_split(final, where):
+        if not f:
+            continue
+        if f[0] == ('punct', '..'):
+            raise TranslateError('%s: `%s` in the Game literal' % (where, sj(f)[:80]))
+        if len(f) == 1 and f[0][0] == 'id':
+            fld, e = f[0][1], f[0][1]
+        elif len(f) >= 3 and f[0][0] == 'id' and f[1] == ('punct', ':'):
+            fld, e = f[0][1], sj(f[2:])
+        else:
+            raise TranslateError('%s: unrecognised field of the Game literal: %s' % (where, sj(f)[:100]))
+        gty = dict(gdecl).get(fld)
+        if gty is None or fld in [a for a, _ in asm]:
+            raise TranslateError('%s: Game.%s does not exist or is initialised twice' % (where, fld))
+        m = re.fullmatch(r'(\w+) \. ok_or \( %s \) \?' % SY_ERR, e)
+        mf = re.fullmatch(r'(\w+) \. (\w+)', e)
+        if e in live and e not in used:
+            if not gty.startswith('Option <'):
+                raise TranslateError('%s: Game.%s (%s) is initialised from the Option accumulator %s' % (where, fld, gty, e))
+            asm.append((fld, 'AsOptional %s' % coq_str(e)))
+            used.add(e)
+        elif e in binders:
+            asm.append((fld, 'AsRequired %s' % coq_str(binders[e])))
+        elif m and m.group(1) in live and m.group(1) not in used:
+            asm.append((fld, 'AsRequired %s' % coq_str(m.group(1))))
+            required.append(m.group(1))
+            used.add(m.group(1))
+        elif mf and mf.group(1) in binders:
+            acc = binders[mf.group(1)]
+            if accs[acc] != 'peppi :: Peppi' or mf.group(2) not in pdecl or pdecl[mf.group(2)] != gty:
+                raise TranslateError('%s: Game.%s (%s) is initialised from `%s`, which is not a field of that type of the peppi::Peppi accumulator' % (where, fld, gty, e))
+            asm.append((fld, 'AsRequiredField %s %s' % (coq_str(acc), coq_str(mf.group(2)))))
+        else:
+            c = sx_changer(e)
+            if c in ('unwrap_or_default', 'unwrap_or', 'unwrap_or_else', 'unwrap', 'expect', 'or', 'or_else', 'map', 'and_then', 'filter', 'take', 'flatten'):
+                raise TranslateError('%s: Game.%s: `.%s(..)` on an accumulator: a missing entry would not be an error / the value is not passed on as it was read: %s'
+                                     % (where, fld, c, e[:200]))
+            raise TranslateError('%s: Game.%s: unrecognised source (expected `<acc>`, `<acc>.ok_or(err!(..))?`, or a field of a `let x = <acc>.ok_or(..)?` binding): %s'
+                                 % (where, fld, e[:200]))
+    if sorted(a for a, _ in asm) != sorted(a for a, _ in gdecl):
+        raise TranslateError('%s: the Game literal does not initialise every field of struct Game: %s' % (where, [a for a, _ in asm]))
+    unused = [a for a in accs if a not in used]
+    if unused:
+        raise TranslateError('%s: the accumulator(s) %s are never used in the result' % (where, unused))
+
+    # ---- the arms
+    fb = fw_for_block(loop, where)
+    ms = [st for st in fw_stmts(fb[1], where) if tv(st[:1]) == ['match']]
+    if len(ms) != 1:
+        raise TranslateError('%s: expected exactly one `match` in the entry loop' % where)
+    j = StmtView(ms[0], where).first_top(1, len(ms[0]), '{')
+    if j < 0 or match_close(ms[0], j) != len(ms[0]) - 1:
+        raise TranslateError('%s: unexpected tokens after the match' % where)
+    helpers = ('read_peppi_start', 'read_peppi_end', 'read_peppi_metadata', 'read_peppi_gecko_codes')
+    fa = None
+    for pat, bd0 in match_arms(ms[0][j + 1:-1], where):
+        bd = bd0[:-2] if bd0.endswith(' ;') and ' ; ' not in bd0 else bd0
+        if pat == '_':
+            continue
+        mm = re.fullmatch(r'(\w+) = (?:Some \( )?(\w+) \( file \) \?(?: \))?', bd)
+        if mm and mm.group(2) in helpers:
+            continue                  # front end (n)
+        if 'assert_current_version' in bd.split(' '):
+            continue                  # front end (n)
+        pm = re.fullmatch(r'Some \( "([\w.\-]+)" \)', pat)
+        if not pm or fa is not None:
+            raise TranslateError('%s: a second arm that is neither a helper arm nor the catch-all, or an unrecognised pattern: %s' % (where, pat[:100]))
+        fa = sy_frames_arm(pm.group(1), bd0, accs, where)
+    if fa is None:
+        raise TranslateError('%s: no arm builds the frames' % where)
+
+    L = []
+    L.append('(* GENERATED by tools/rust2coq.py from %s (fn read: the accumulators, the arm that builds the frames, the assembly of the Game; fn read_arrow_frames)' % SLPP_DE)
+    L.append('   -- do not edit. *)')
+    L.append('From Coq Require Import NArith List String.')
+    L.append('Import ListNotations.')
+    L.append('Local Open Scope string_scope.')
+    L.append('')
+    L.append('(* fn read(r, opts: Option<&Opts>): `let mut <acc>: Option<T> = None;` in order, with T *)')
+    L.append('Definition slpp_read_accs : list (string * string) :=\n  [%s].' % '; '.join('(%s, %s)' % (coq_str(a), coq_str(accs[a].replace(' ', ''))) for a in order))
+    L.append('')
+    L.append('(* the arm Some(%s): `let version = %s.as_ref().map(|s| s.%s).ok_or(err!(..))?;` (no such accumulator yet: an error),' % (coq_str(fa['name']), fa['vacc'], '.'.join(fa['vpath'])))
+    L.append('   `%s = Some(match opts.map_or(%s, |o| o.%s) { true => {..}, _ => {..} });` `break;` *)' % (fa['target'], fa['dflt'], fa['fld']))
+    L.append('Definition slpp_frames_entry : string := %s.' % coq_str(fa['name']))
+    L.append('Definition slpp_frames_target : string := %s.' % coq_str(fa['target']))
+    L.append('Definition slpp_frames_version : string * list string := (%s, [%s]).' % (coq_str(fa['vacc']), '; '.join(coq_str(x) for x in fa['vpath'])))
+    L.append('Definition slpp_frames_skip_default : bool := %s.       (* the value of the test when opts is None *)' % fa['dflt'])
+    L.append('Definition slpp_frames_skip_field : string := %s.' % coq_str(fa['fld']))
+    L.append('(* the statements of a branch.  FvLocalVersion: the `version` bound above; FvStartField p: <the start bound in the branch>.p')
+    L.append('   FbRequireStart a: let start = <a>.as_ref().ok_or(err!(..))?;  FbEmptyFrames c v f: MutableFrame::with_capacity(c, <v>, &f(start)).into();')
+    L.append('   FbDeclaredSize: let size = file.size();  FbNewBuf: let mut buf = Vec::new();  FbReadToEnd: file.read_to_end(&mut buf)?;')
+    L.append('   FbShortIsErr cmp: if (buf.len() as u64) <cmp> size { return Err(err!(..)); }  FbDecode f v: f(&buf[..], <v>)? *)')
+    L.append('Inductive fver := FvLocalVersion | FvStartField (path : list string).')
+    L.append('Inductive fcmp := FcLt | FcLe | FcNe.')
+    L.append('Inductive fb_step :=')
+    L.append('| FbRequireStart (acc : string) | FbEmptyFrames (capacity : N) (v : fver) (ports_fn : string)')
+    L.append('| FbDeclaredSize | FbNewBuf | FbReadToEnd | FbShortIsErr (cmp : fcmp) | FbDecode (fn : string) (v : fver).')
+    L.append('Definition slpp_frames_when_skip : list fb_step := [%s].' % '; '.join(fa['when_true']))
+    L.append('Definition slpp_frames_otherwise : list fb_step := [%s].' % '; '.join(fa['when_false']))
+    L.append('')
+    L.append('(* after the loop.  The accumulators that must be present, in the order their `.ok_or(err!(..))?` is evaluated (the `let x = <acc>.ok_or(..)?` lines first,')
+    L.append('   then the fields of the Game literal in order) *)')
+    L.append('Definition slpp_read_required : list string := [%s].' % '; '.join(coq_str(a) for a in required))
+    L.append('(* Ok(Game { <field>: <source>, .. }): AsOptional a = the accumulator a as it is (an Option); AsRequired a = a.ok_or(err!(..))?;')
+    L.append('   AsRequiredField a f = x.f for `let x = a.ok_or(err!(..))?` *)')
+    L.append('Inductive asm_src := AsOptional (acc : string) | AsRequired (acc : string) | AsRequiredField (acc : string) (field : string).')
+    L.append('Definition slpp_read_assembly : list (string * asm_src) :=\n  [%s].' % '; '.join('(%s, %s)' % (coq_str(a), b_) for a, b_ in asm))
+    L.append('')
+    L.extend(sz_read_arrow_frames())
+    return '\n'.join(L) + '\n'
+
+
+# ------------------------------------------------------------------------------------------------
+# (aa) .slpp option-defaults front end: `struct Opts` of src/io/peppi/ser.rs and src/io/peppi/de.rs (fields, how Default is obtained), and the ONE use of
+#      `opts` in fn write / fn read (`opts.map_or(<default>, |o| o.<field>)`): what the entry points do when the caller passes None -> Gen/SlppOptsSrc.v
+
+def sa_value(text, ty, where):
+    if ty == 'bool' and text in ('true', 'false'):
+        return 'OvBool %s' % text
+    if ty.startswith('Option <') and text == 'None':
+        return 'OvNone'
+    m = re.fullmatch(r'Some \( Compression :: (LZ4|ZSTD) \)', text)
+    if m and ty == 'Option < Compression >':
+        return {'LZ4': 'OvSomeLz4', 'ZSTD': 'OvSomeZstd'}[m.group(1)]
+    raise TranslateError('%s: unrecognised default value `%s` for a field of type %s' % (where, text[:80], ty))
+
+
+def sa_opts(rel):
+    """-> (fields [(name, type)], how, defaults [(name, oval)])"""
+    toks = tokenize(read(rel), rel)
+    w = '%s struct Opts' % rel
+    i = find_seq(toks, ['struct', 'Opts'])
+    if i < 0 or toks[i + 2][1] != '{':
+        raise TranslateError('%s: not found (or not a plain struct)' % w)
+    fields = parse_struct_decl(toks, 'Opts', rel)
+    derived = 'Default' in js_derives(attrs_before(toks, i))
+    manual = find_seq(toks, ['impl', 'Default', 'for', 'Opts'])
+    if derived == (manual >= 0):
+        raise TranslateError('%s: expected exactly one of `#[derive(Default)]` and `impl Default for Opts`' % w)
+    if derived:
+        dv = []
+        for f, ty in fields:
+            if ty == 'bool':
+                dv.append((f, 'OvBool false'))
+            elif ty.startswith('Option <'):
+                dv.append((f, 'OvNone'))
+            else:
+                raise TranslateError('%s: the derived default of a field of type %s is not modelled' % (w, ty))
+        return fields, 'OdDerived', dv
+    params, ret, body, names, blk = other_impl_fn(rel, 'Default for Opts', 'default')
+    if names != ['default'] or sjp(params) != '' or sj(ret) not in ('-> Self', '-> Opts'):
+        raise TranslateError('%s: unexpected `impl Default for Opts`' % w)
+    if tv(body[:2]) not in (['Self', '{'], ['Opts', '{']) or match_close(body, 1) != len(body) - 1:
+        raise TranslateError('%s: fn default is not a struct literal: %s' % (w, sj(body)[:200]))
+    d = {}
+    for g in af_split(body[2:-1], w):
+        if not g:
+            continue
+        if len(g) < 3 or g[0][0] != 'id' or g[1] != ('punct', ':') or g[0][1] in d:
+            raise TranslateError('%s: unrecognised initialiser in fn default: %s' % (w, sj(g)[:100]))
+        d[g[0][1]] = sj(g[2:])
+    if sorted(d) != sorted(f for f, _ in fields):
+        raise TranslateError('%s: fn default does not initialise exactly the fields' % w)
+    return fields, 'OdManual', [(f, sa_value(d[f], ty, w)) for f, ty in fields]
+
+
+def sa_use(rel, fn, fields):
+    where = '%s fn %s' % (rel, fn)
+    params, ret, body = find_fn(rel, None, fn)
+    ps = dict(parse_params(params, where))
+    if ps.get('opts') != 'Option < & Opts >':
+        raise TranslateError('%s: no parameter `opts: Option<&Opts>`' % where)
+    v = tv(body)
+    uses = [k for k, t in enumerate(body) if t == ('id', 'opts')]
+    if len(uses) != 1 or v[uses[0] + 1:uses[0] + 4] != ['.', 'map_or', '('] or body[uses[0] - 1][1] in ('.', '::'):
+        raise TranslateError('%s: `opts` is not used exactly once, as `opts.map_or(<default>, |o| o.<field>)`' % where)
+    e = match_close(body, uses[0] + 3)
+    dflt, fld = sx_map_or(sj(body[uses[0]:e + 1]), where)
+    ty = dict(fields).get(fld)
+    if ty is None:
+        raise TranslateError('%s: Opts.%s does not exist' % (where, fld))
+    return fld, sa_value(dflt, ty, where)
+
+
+def gen_slpp_opts_src():
+    D = []
+    D.append('(* OvBool b / OvNone / OvSomeLz4 / OvSomeZstd: the value of a field (bool, or Option<Compression>);')
+    D.append('   OdDerived: #[derive(Default)] (false / None); OdManual: a hand-written `impl Default for Opts` whose literal is listed *)')
+    D.append('Inductive oval := OvBool (b : bool) | OvNone | OvSomeLz4 | OvSomeZstd.')
+    D.append('Inductive odefault := OdDerived | OdManual.')
+    for rel, fn, pre in ((SLPP_SER, 'write', 'ser'), (SLPP_DE, 'read', 'de')):
+        fields, how, dv = sa_opts(rel)
+        fld, val = sa_use(rel, fn, fields)
+        D.append('')
+        D.append('(* %s: pub struct Opts { %s }; fn %s(.., opts: Option<&Opts>) uses `opts` once: opts.map_or(<default>, |o| o.%s) *)' % (
+            rel, ', '.join('%s: %s' % (f, t.replace(' ', '')) for f, t in fields), fn, fld))
+        D.append('Definition slpp_%s_opts_fields : list (string * string) := [%s].' % (pre, '; '.join('(%s, %s)' % (coq_str(f), coq_str(t.replace(' ', ''))) for f, t in fields)))
+        D.append('Definition slpp_%s_opts_default_how : odefault := %s.' % (pre, how))
+        D.append('Definition slpp_%s_opts_default : list (string * oval) := [%s].      (* Opts::default() *)' % (pre, '; '.join('(%s, %s)' % (coq_str(f), o) for f, o in dv)))
+        D.append('Definition slpp_%s_opts_none : string * oval := (%s, %s).      (* the field consulted, and its value when opts is None *)' % (pre, coq_str(fld), val))
+    L = []
+    L.append('(* GENERATED by tools/rust2coq.py from %s (struct Opts, the use of `opts` in fn write) and %s (struct Opts, the use of `opts` in fn read)' % (SLPP_SER, SLPP_DE))
+    L.append('   -- do not edit. *)')
+    L.append('From Coq Require Import List String.')
+    L.append('Import ListNotations.')
+    L.append('Local Open Scope string_scope.')
+    L.append('')
+    L.extend(D)
+    return '\n'.join(L) + '\n'
+
+
 def write_if_changed(path, content):
     os.makedirs(os.path.dirname(path), exist_ok=True)
     try:
@@ -6343,7 +7318,8 @@ def main():
                       ('MeleeStringSrc.v', gen_melee_string), ('HashingSrc.v', gen_hashing),
                       ('PortOccupancySrc.v', gen_port_occupancy),
                       ('StartWiring.v', gen_start_wiring), ('JsonShape.v', gen_json_shape),
-                      ('UbjsonBodies.v', gen_ubjson_bodies), ('TarSrc.v', gen_tar_src)):
+                      ('UbjsonBodies.v', gen_ubjson_bodies), ('TarSrc.v', gen_tar_src),
+                      ('SlppWriteSrc.v', gen_slpp_write_src), ('SlppReadSrc.v', gen_slpp_read_src), ('SlppOptsSrc.v', gen_slpp_opts_src)):
         try:
             content = gen()
             if write_if_changed(os.path.join(OUT, name), content):
